@@ -10,9 +10,8 @@ package router
 // Sending an error ping builds, seals and routes a new frame: it is assumed not to touch the frame being handled
 // nor the configuration (its body is verified separately only for the absence of panics).
 //@ func ErrorPingHandler.sendError
-//@   option trusted
 //@   modifies nothing
-//@   havoc F|state., F|peering., F|switchr., F|m.RoutingTable, MP|
+//@   havoc F|state., F|peering., F|switchr., F|m.RoutingTable, MP|, F|router.routerErrorState|, F|router.ErrorPingHandler|
 
 // Sending a ping builds, seals and routes a new frame. Like sendError it is assumed not to touch the frame being
 // handled, the handlers' own tables or the configuration.
@@ -41,6 +40,7 @@ package router
 //@ type routerErrorState
 //@   invariant maps [C13]: self.sent != nil && self.rcvd != nil
 //@ func ErrorPingHandler.getOrCreateState
+//@   modifies any("F|router.routerErrorState|"), any("F|router.ErrorPingHandler|"), any("MP|")
 //@   ensures state [C13]: result != nil
 
 // ---- identities are verified before they reach the state (C01) ---------------------------------
